@@ -1376,3 +1376,491 @@ static void case_ecdh(unit_t *u, int ci)
     }
     free(out); eck_free(B);
 }
+
+/* ==================================================================== DH === */
+typedef struct { const char *name; int kind; int nid; const char *file; } dhg_t; /* kind 0 ffdhe nid, 1 modp, 2 params file */
+static const dhg_t DHG[] = {
+    { "ffdhe2048", 0, NID_ffdhe2048, NULL }, { "ffdhe3072", 0, NID_ffdhe3072, NULL }, { "ffdhe4096", 0, NID_ffdhe4096, NULL },
+    { "modp1024", 1, 1024, NULL }, { "modp1536", 1, 1536, NULL }, { "modp2048", 1, 2048, NULL }, { "modp3072", 1, 3072, NULL }, { "modp4096", 1, 4096, NULL },
+    { "tk-dh1024", 2, 0, "DH/dh1024.pem" }, { "tk-dh2048", 2, 0, "DH/dh2048.pem" }, { "tk-3072", 2, 0, "DH/3072_DH_PARAMS.pem" },
+};
+#define NDHG ((int) (sizeof DHG / sizeof DHG[0]))
+static int dh_group(const dhg_t *G, BIGNUM **p, BIGNUM **g)
+{
+    *p = *g = NULL;
+    if (G->kind == 0) { DH *d = DH_new_by_nid(G->nid); if (!d) return 0; *p = BN_dup(DH_get0_p(d)); *g = BN_dup(DH_get0_g(d)); DH_free(d); }
+    else if (G->kind == 1) {
+        *p = G->nid == 1024 ? BN_get_rfc2409_prime_1024(NULL) : G->nid == 1536 ? BN_get_rfc3526_prime_1536(NULL) : G->nid == 2048 ? BN_get_rfc3526_prime_2048(NULL) :
+             G->nid == 3072 ? BN_get_rfc3526_prime_3072(NULL) : BN_get_rfc3526_prime_4096(NULL);
+        *g = BN_new(); BN_set_word(*g, 2);
+    } else {
+        char path[512]; snprintf(path, sizeof path, "%s/%s", g_testkeys, G->file);
+        FILE *f = fopen(path, "r"); if (!f) return 0;
+        DH *d = PEM_read_DHparams(f, NULL, NULL, NULL); fclose(f);
+        if (!d) { ERR_clear_error(); return 0; }
+        *p = BN_dup(DH_get0_p(d)); *g = BN_dup(DH_get0_g(d)); DH_free(d);
+    }
+    return *p && *g;
+}
+static const char *DHV[] = {
+    "pair-short-exp", "pair-256bit-exp", "pair-full-exp", "pair-short-exp-2", "pair-leading-zero-secret", "own-keygen",
+    "pub-2", "pub-p-minus-2", "pub-0", "pub-0-padded", "pub-empty", "pub-1", "pub-1-padded", "pub-p-minus-1", "pub-p", "pub-p-plus-1", "pub-2pow", "pub-p-plus-rand", "pub-2p-minus-1", "pub-p-padded",
+};
+#define NDHV ((int) (sizeof DHV / sizeof DHV[0]))
+static void case_dh(unit_t *u, int ci)
+{
+    const dhg_t *G = &DHG[u->a]; BIGNUM *p, *g;
+    if (!dh_group(G, &p, &g)) { vf_incon("DH group %s unavailable", G->name); return; }
+    int k = BN_num_bytes(p), pbits = BN_num_bits(p);
+    const char *vn = DHV[ci];
+    unsigned char *pbin = malloc(k), *abin = malloc(k), *ybin = malloc(k + 2), *ref = malloc(k), *out = malloc(k);
+    BN_bn2bin(p, pbin);
+    BIGNUM *a = BN_new(), *y = BN_new(), *z = BN_new(), *t = BN_new();
+    int abits = (ci == 1) ? 256 : (ci == 2) ? (pbits > 2048 && !vf_thorough ? 1024 : pbits - 2) : 225 + (int) vf_below(&R, 96);
+    BN_rand(a, abits, BN_RAND_TOP_ONE, BN_RAND_BOTTOM_ANY);
+    int alen = BN_bn2bin(a, abin), ylen, expect_ok = 1;
+    psDhKey_t priv, pub; memset(&priv, 0, sizeof priv); memset(&pub, 0, sizeof pub);
+    unsigned char *ab = hb(abin, alen);
+    if (psDhImportPrivKey(NULL, ab, (psSize_t) alen, &priv) < 0) { vf_incon("psDhImportPrivKey failed"); free(ab); goto out; }
+    free(ab);
+    if (ci == 5) { /* the library generates the peer key; libcrypto must agree on the secret */
+        unsigned char *der = NULL; DH *d = DH_new(); DH_set0_pqg(d, BN_dup(p), NULL, BN_dup(g)); int dl = i2d_DHparams(d, &der); DH_free(d);
+        psDhParams_t prm; memset(&prm, 0, sizeof prm);
+        unsigned char *db = hb(der, dl);
+        int rc = psPkcs3ParseDhParamBin(NULL, db, (psSize_t) dl, &prm);
+        free(db); OPENSSL_free(der);
+        rec("dh", G->name, vn, NULL);
+        if (rc < 0) { viol("dh", "rejects-valid-params", "psPkcs3ParseDhParamBin rc=%d for %s", rc, G->name); goto out; }
+        psDhKey_t mine; memset(&mine, 0, sizeof mine);
+        rc = psDhGenKeyParams(NULL, &prm, &mine, NULL);
+        if (rc < 0) { viol("dh", "spurious-failure", "psDhGenKeyParams rc=%d for %s", rc, G->name); psPkcs3ClearDhParams(&prm); goto out; }
+        unsigned char *pb = malloc(k); psSize_t pl = (psSize_t) k;
+        rc = psDhExportPubKey(NULL, &mine, pb, &pl);
+        BN_bin2bn(pb, pl, y);
+        BIGNUM *pm1 = BN_dup(p); BN_sub_word(pm1, 1);
+        if (rc < 0 || BN_cmp(y, BN_value_one()) <= 0 || BN_cmp(y, pm1) >= 0) viol("dh", "generates-invalid-public-value", "psDhGenKeyParams produced public value %s (rc=%d)", hx(pb, pl), rc);
+        else {
+            /* peer (libcrypto, exponent a) public value; both sides must derive the same secret */
+            BN_mod_exp(t, g, a, p, bnctx); ylen = BN_bn2bin(t, ybin);
+            BN_mod_exp(z, y, a, p, bnctx); int zl = BN_bn2bin(z, ref);
+            unsigned char *yb = hb(ybin, ylen); psSize_t ol = (psSize_t) k;
+            psDhKey_t peer; memset(&peer, 0, sizeof peer);
+            psDhImportPubKey(NULL, yb, (psSize_t) ylen, &peer); free(yb);
+            rc = psDhGenSharedSecretParams(NULL, &mine, &peer, &prm, out, &ol, NULL);
+            if (rc < 0 || ol != zl || memcmp(out, ref, zl)) viol("dh", "secret-mismatch", "secret from a library-generated key differs from libcrypto's (rc=%d) group %s", rc, G->name);
+            psDhClearKey(&peer);
+        }
+        BN_free(pm1); free(pb); psDhClearKey(&mine); psPkcs3ClearDhParams(&prm);
+        goto out;
+    }
+    /* choose the peer's public value */
+    if (ci <= 4) {
+        BIGNUM *b = BN_new(); BN_rand(b, 256, BN_RAND_TOP_ONE, BN_RAND_BOTTOM_ANY); BN_mod_exp(y, g, b, p, bnctx);
+        if (ci == 4) /* search for a secret with a leading zero octet: output must be stripped like libcrypto's DH_compute_key */
+            for (int tt = 0; tt < 3000; tt++) { BN_mod_exp(z, y, a, p, bnctx); if (BN_num_bytes(z) < k) break; BN_add_word(b, 1); BN_mod_mul(y, y, g, p, bnctx); }
+        BN_free(b);
+        ylen = BN_bn2binpad(y, ybin, k);
+    } else {
+        ylen = -1;
+        switch (ci) {
+        case 6: BN_set_word(y, 2); break;
+        case 7: BN_copy(y, p); BN_sub_word(y, 2); break;
+        case 8: BN_zero(y); ybin[0] = 0; ylen = 1; expect_ok = 0; break;
+        case 9: BN_zero(y); memset(ybin, 0, k); ylen = k; expect_ok = 0; break;
+        case 10: BN_zero(y); ylen = 0; expect_ok = 0; break;
+        case 11: BN_one(y); expect_ok = 0; break;
+        case 12: BN_one(y); ylen = BN_bn2binpad(y, ybin, k); expect_ok = 0; break;
+        case 13: BN_copy(y, p); BN_sub_word(y, 1); expect_ok = 0; break;
+        case 14: BN_copy(y, p); expect_ok = 0; break;
+        case 15: BN_copy(y, p); BN_add_word(y, 1); expect_ok = 0; break;
+        case 16: BN_zero(y); BN_set_bit(y, 8 * k); expect_ok = 0; break;
+        case 17: BN_rand(t, pbits - 1, BN_RAND_TOP_ANY, BN_RAND_BOTTOM_ANY); BN_add(y, p, t); expect_ok = 0; break;
+        case 18: BN_lshift1(y, p); BN_sub_word(y, 1); expect_ok = 0; break;
+        case 19: BN_copy(y, p); ylen = BN_bn2binpad(y, ybin, k + 2); expect_ok = 0; break;
+        }
+        if (ylen < 0) ylen = BN_bn2bin(y, ybin);
+    }
+    {
+        unsigned char *yb = hb(ybin, ylen); psSize_t ol = (psSize_t) k;
+        int rc1 = psDhImportPubKey(NULL, yb, (psSize_t) ylen, &pub), rc2 = -1;
+        free(yb);
+        unsigned char *pb = hb(pbin, k);
+        if (rc1 >= 0) rc2 = psDhGenSharedSecret(NULL, &priv, &pub, pb, (psSize_t) k, out, &ol, NULL);
+        free(pb);
+        rec("dh", G->name, vn, NULL);
+        verdict_stat("dh", rc1 >= 0 && rc2 >= 0);
+        if (!expect_ok) {
+            if (rc1 >= 0 && rc2 >= 0) viol("dh", "accepts-out-of-range-public-value", "public value %s (%s) was used to compute a secret: group %s", hx(ybin, ylen), vn, G->name);
+        } else {
+            BN_mod_exp(z, y, a, p, bnctx); int zl = BN_bn2bin(z, ref);
+            if (rc1 < 0 || rc2 < 0) viol("dh", "rejects-valid", "valid public value refused (import rc=%d, secret rc=%d) variant %s group %s y=%s", rc1, rc2, vn, G->name, hx(ybin, ylen));
+            else if (ol != zl || memcmp(out, ref, zl)) viol("dh", "secret-mismatch", "DH secret differs from libcrypto: group %s variant %s got(%d)=%s want(%d)=%s", G->name, vn, ol, hx(out, ol), zl, hx(ref, zl));
+            if (ci == 4 && zl < k) vf_stat("dh_secret_with_leading_zero_octet", 1);
+        }
+        if (vf_nsamples < 1) vf_sample("dh group=%s variant=%s y=%s import=%d secret_rc=%d", G->name, vn, hx(ybin, ylen), rc1, rc2);
+        if (rc1 >= 0) psDhClearKey(&pub);
+    }
+out:
+    psDhClearKey(&priv);
+    BN_free(a); BN_free(y); BN_free(z); BN_free(t); BN_free(p); BN_free(g);
+    free(pbin); free(abin); free(ybin); free(ref); free(out);
+}
+
+/* ================================================================ X25519 === */
+static int ossl_x25519(const unsigned char priv[32], const unsigned char pub[32], unsigned char out[32])
+{
+    EVP_PKEY *a = EVP_PKEY_new_raw_private_key(EVP_PKEY_X25519, NULL, priv, 32), *b = EVP_PKEY_new_raw_public_key(EVP_PKEY_X25519, NULL, pub, 32);
+    EVP_PKEY_CTX *c = a ? EVP_PKEY_CTX_new(a, NULL) : NULL; size_t l = 32; int ok = 0;
+    if (c && b && EVP_PKEY_derive_init(c) == 1 && EVP_PKEY_derive_set_peer(c, b) == 1 && EVP_PKEY_derive(c, out, &l) == 1 && l == 32) ok = 1;
+    EVP_PKEY_CTX_free(c); EVP_PKEY_free(a); EVP_PKEY_free(b); ERR_clear_error();
+    return ok;
+}
+static int ms_x25519(const unsigned char priv[32], const unsigned char pub[32], unsigned char out[32])
+{
+    unsigned char *pb = hb(priv, 32), *ub = hb(pub, 32), *ob = malloc(32);
+    int rc = psDhX25519GenSharedSecret(ub, pb, ob);
+    memcpy(out, ob, 32); free(pb); free(ub); free(ob);
+    return rc;
+}
+static const char *X_SMALL[] = {
+    "0000000000000000000000000000000000000000000000000000000000000000", "0100000000000000000000000000000000000000000000000000000000000000",
+    "e0eb7a7c3b41b8ae1656e3faf19fc46ada098deb9c32b1fd866205165f49b800", "5f9c95bca3508c24b1d0b1559c83ef5b04445cc4581c8e86d8224eddd09f1157",
+    "ecffffffffffffffffffffffffffffffffffffffffffffffffffffffffffff7f", "edffffffffffffffffffffffffffffffffffffffffffffffffffffffffffff7f",
+    "eeffffffffffffffffffffffffffffffffffffffffffffffffffffffffffff7f",
+};
+static void case_x25519(unit_t *u, int ci)
+{
+    unsigned char a[32], b[32], A[32], B[32], s1[32], s2[32], base[32] = { 9 };
+    (void) u;
+    if (ci < 7) { /* low-order inputs: the all-zero result must be refused */
+        vf_fill(&R, a, 32); vf_unhex(B, X_SMALL[ci]);
+        int rc = ms_x25519(a, B, s1), o = ossl_x25519(a, B, s2);
+        rec("x25519", "x25519", "low-order-point", X_SMALL[ci] + 56);
+        if (rc == PS_SUCCESS) viol("x25519", "accepts-low-order-point", "psDhX25519GenSharedSecret succeeded for low-order u=%s (secret %s, libcrypto %s)", X_SMALL[ci], hx(s1, 32), o ? "also succeeds" : "refuses");
+        return;
+    }
+    if (ci == 7 || ci == 8) { /* RFC 7748 section 5.2 vectors */
+        static const char *kx[] = { "a546e36bf0527c9d3b16154b82465edd62144c0ac1fc5a18506a2244ba449ac4", "4b66e9d4d1b4673c5ad22691957d6af5c11b6421e0ea01d42ca4169e7918ba0d" };
+        static const char *ux[] = { "e6db6867583030db3594c1a424b15f7c726624ec26b3353b10a903a6d0ab1c4c", "e5210f12786811d3f4b7959d0538ae2c31dbe7106fc03c3efc4cd549c715a493" };
+        static const char *rx[] = { "c3da55379de9c6908e94ea4df28d084f32eccf03491c71f754b4075577a28552", "95cbde9476e8907d7aade45cb4b873f88b595a68799fa152e6f8f7647aac7957" };
+        vf_unhex(a, kx[ci - 7]); vf_unhex(B, ux[ci - 7]); vf_unhex(s2, rx[ci - 7]);
+        int rc = ms_x25519(a, B, s1);
+        rec("x25519", "x25519", "rfc7748-vector", ci == 7 ? "1" : "2");
+        if (rc != PS_SUCCESS || memcmp(s1, s2, 32)) viol("x25519", "secret-mismatch", "RFC 7748 vector %d: rc=%d got %s", ci - 6, rc, hx(s1, 32));
+        return;
+    }
+    if (ci == 9) { /* RFC 7748 iterated test, 1 and 1000 iterations */
+        unsigned char k[32] = { 9 }, uu[32] = { 9 }, r[32], want1[32], want1000[32];
+        vf_unhex(want1, "422c8e7a6227d7bca1350b3e2bb7279f7897b87bb6854b783c60e80311ae3079");
+        vf_unhex(want1000, "684cf59ba83309552800ef566f2f4d3c1c3887c49360e3875f2eb94d99532c51");
+        for (int i = 1; i <= 1000; i++) {
+            if (ms_x25519(k, uu, r) != PS_SUCCESS) { viol("x25519", "spurious-failure", "iteration %d failed", i); return; }
+            memcpy(uu, k, 32); memcpy(k, r, 32);
+            if (i == 1 && memcmp(k, want1, 32)) viol("x25519", "secret-mismatch", "RFC 7748 iterated test wrong after 1 iteration");
+        }
+        rec("x25519", "x25519", "rfc7748-iterated-1000", NULL);
+        if (memcmp(k, want1000, 32)) viol("x25519", "secret-mismatch", "RFC 7748 iterated test wrong after 1000 iterations: %s", hx(k, 32));
+        return;
+    }
+    vf_fill(&R, a, 32); vf_fill(&R, b, 32);
+    const char *vn = "random-pair";
+    if (ci % 8 == 2) { /* non-canonical u: top bit set, or u in [p, 2^255) */
+        vf_fill(&R, B, 32); B[31] |= 0x80; vn = "u-top-bit-set";
+    } else if (ci % 8 == 3) {
+        memset(B, 0xff, 32); B[31] = 0x7f; B[0] = (unsigned char) (0xed + 2 + vf_below(&R, 17)); vn = "u-not-reduced";
+    } else {
+        if (ms_x25519(b, base, B) != PS_SUCCESS) { viol("x25519", "spurious-failure", "base-point multiplication failed"); return; }
+        if (!ossl_x25519(b, base, A) || memcmp(A, B, 32)) viol("x25519", "public-key-mismatch", "public key from scalar %s differs from libcrypto's", hx(b, 32));
+    }
+    int rc = ms_x25519(a, B, s1), o = ossl_x25519(a, B, s2);
+    rec("x25519", "x25519", vn, NULL);
+    if (!o) { if (rc == PS_SUCCESS) vf_stat("x25519_libcrypto_refused_matrixssl_accepted", 1); }
+    else if (rc != PS_SUCCESS) viol("x25519", "spurious-failure", "rc=%d for u=%s", rc, hx(B, 32));
+    else if (memcmp(s1, s2, 32)) viol("x25519", "secret-mismatch", "%s: scalar %s u %s got %s want %s", vn, hx(a, 32), hx(B, 32), hx(s1, 32), hx(s2, 32));
+    if (vf_nsamples < 1) vf_sample("x25519 u=%s secret=%s", hx(B, 32), hx(s2, 32));
+}
+
+/* =============================================================== Ed25519 === */
+typedef struct { unsigned char priv[32], pub[32]; EVP_PKEY *sk, *pk; psPubKey_t mk; } edk_t;
+static int edk_from_priv(edk_t *K, const unsigned char priv[32])
+{
+    size_t l = 32;
+    memcpy(K->priv, priv, 32);
+    K->sk = EVP_PKEY_new_raw_private_key(EVP_PKEY_ED25519, NULL, priv, 32);
+    if (!K->sk || EVP_PKEY_get_raw_public_key(K->sk, K->pub, &l) != 1) return 0;
+    K->pk = EVP_PKEY_new_raw_public_key(EVP_PKEY_ED25519, NULL, K->pub, 32);
+    memset(&K->mk, 0, sizeof K->mk);
+    psInitPubKey(NULL, &K->mk, PS_ED25519);
+    memcpy(K->mk.key.ed25519.priv, K->priv, 32); memcpy(K->mk.key.ed25519.pub, K->pub, 32);
+    K->mk.key.ed25519.havePriv = K->mk.key.ed25519.havePub = PS_TRUE;
+    K->mk.keysize = 32;
+    return K->pk != NULL;
+}
+static void edk_free(edk_t *K) { EVP_PKEY_free(K->sk); EVP_PKEY_free(K->pk); }
+static int ossl_ed_verify(const unsigned char pub[32], const unsigned char *msg, size_t ml, const unsigned char *sig, size_t sl)
+{
+    EVP_PKEY *pk = EVP_PKEY_new_raw_public_key(EVP_PKEY_ED25519, NULL, pub, 32);
+    EVP_MD_CTX *c = EVP_MD_CTX_new(); int ok = 0;
+    if (pk && EVP_DigestVerifyInit(c, NULL, NULL, NULL, pk) == 1) ok = EVP_DigestVerify(c, sig, sl, msg, ml) == 1;
+    EVP_MD_CTX_free(c); EVP_PKEY_free(pk); ERR_clear_error();
+    return ok;
+}
+static int ossl_ed_sign(edk_t *K, const unsigned char *msg, size_t ml, unsigned char sig[64])
+{
+    EVP_MD_CTX *c = EVP_MD_CTX_new(); size_t sl = 64;
+    int ok = EVP_DigestSignInit(c, NULL, NULL, NULL, K->sk) == 1 && EVP_DigestSign(c, sig, &sl, msg, ml) == 1 && sl == 64;
+    EVP_MD_CTX_free(c); ERR_clear_error();
+    return ok;
+}
+static int ms_ed_verify(const unsigned char pub[32], const unsigned char *msg, size_t ml, const unsigned char *sig, size_t sl, int *prc)
+{
+    psPubKey_t k; memset(&k, 0, sizeof k); psInitPubKey(NULL, &k, PS_ED25519);
+    memcpy(k.key.ed25519.pub, pub, 32); k.key.ed25519.havePub = PS_TRUE; k.keysize = 32;
+    unsigned char *mb = hb(msg, ml), *sb = hb(sig, sl);
+    psVerifyOptions_t o; memset(&o, 0, sizeof o);
+    psBool_t vr = 2;
+    psRes_t rc = psVerify(NULL, mb, ml, sb, (psSize_t) sl, &k, OID_ED25519_KEY_ALG, &vr, &o);
+    free(mb); free(sb);
+    if ((rc == PS_SUCCESS) != (vr == PS_TRUE)) viol("ed25519-verify", "inconsistent-result", "psVerify rc=%d verifyResult=%d", rc, vr);
+    if (prc) *prc = rc;
+    return rc == PS_SUCCESS && vr == PS_TRUE;
+}
+static void judge_ed(const unsigned char pub[32], const unsigned char *msg, size_t ml, const unsigned char *sig, size_t sl, const char *variant, const char *pos, const char *badcls)
+{
+    int rc = 0, o = ossl_ed_verify(pub, msg, ml, sig, sl);
+    rec("ed25519-verify", "ed25519", variant, pos);
+    int got = ms_ed_verify(pub, msg, ml, sig, sl, &rc);
+    verdict_stat("ed25519-verify", got);
+    if (got && !o) viol("ed25519-verify", badcls, "accepted an Ed25519 signature libcrypto rejects: variant %s pos %s siglen %zu pub=%s msg=%s sig=%s", variant, pos ? pos : "-", sl, hx(pub, 32), hx(msg, ml), hx(sig, sl));
+    else if (!got && o) viol("ed25519-verify", "rejects-valid", "rejected (rc=%d) an Ed25519 signature libcrypto accepts: variant %s pub=%s msg=%s sig=%s", rc, variant, hx(pub, 32), hx(msg, ml), hx(sig, sl));
+    if (vf_nsamples < 1 && o) vf_sample("ed25519-verify variant=%s pub=%s sig=%s got=%d", variant, hx(pub, 32), hx(sig, sl), got);
+}
+static const unsigned char ED_L[32] = { 0xed, 0xd3, 0xf5, 0x5c, 0x1a, 0x63, 0x12, 0x58, 0xd6, 0x9c, 0xf7, 0xa2, 0xde, 0xf9, 0xde, 0x14, 0, 0, 0, 0, 0, 0, 0, 0, 0, 0, 0, 0, 0, 0, 0, 0x10 };
+static void add_L(unsigned char s[32], int times)
+{
+    for (int t = 0; t < times; t++) { int c = 0; for (int i = 0; i < 32; i++) { c += s[i] + ED_L[i]; s[i] = (unsigned char) c; c >>= 8; } }
+}
+static const char *EDV[] = {
+    "valid-len0", "valid-len1", "valid-len32", "valid-len64", "valid-len200", "valid-len1500",
+    "s-plus-L", "s-plus-8L", "s-zero", "s-eq-L", "r-zero", "r-identity", "r-random", "r-s-swapped",
+    "msg-flip", "msg-truncated", "msg-extended", "pub-flip", "pub-other-key", "pub-zero",
+    "sig-len63", "sig-len32", "sig-len1", "sig-len0", "sig-len65", "sig-len128",
+    "sign-len0", "sign-len1", "sign-len100", "sign-len1000",
+};
+#define NEDV ((int) (sizeof EDV / sizeof EDV[0]))
+#define ED_SWEEP 512
+static void ed_unit_key(unit_t *u, edk_t *K)
+{
+    unsigned char priv[32]; vf_rng r; vf_rng_init(&r, vf_seed ^ 0xed25519, (uint64_t) u->a * 1000 + u->round);
+    vf_fill(&r, priv, 32);
+    edk_from_priv(K, priv);
+}
+static void case_ed(unit_t *u, int ci)
+{
+    edk_t K, K2; ed_unit_key(u, &K);
+    unsigned char msg[1600], sig[200], s2[64];
+    const char *vn = ci < NEDV ? EDV[ci] : "sig-bit-flipped";
+    size_t ml = 1 + vf_below(&R, 120), sl = 64;
+    vf_fill(&R, msg, sizeof msg);
+    if (ci >= NEDV) { /* every bit of the signature */
+        int bit = ci - NEDV; char pos[32];
+        ossl_ed_sign(&K, msg, ml, sig);
+        sig[bit / 8] ^= (unsigned char) (1 << (bit % 8));
+        snprintf(pos, sizeof pos, "%s-byte%d", bit < 256 ? "R" : "S", (bit / 8) % 32 == 0 ? 0 : (bit / 8) % 32 == 31 ? 31 : 15);
+        judge_ed(K.pub, msg, ml, sig, 64, vn, pos, "accepts-forged");
+        edk_free(&K); return;
+    }
+    if (ci >= 20 && ci <= 23) { edk_free(&K); return; } /* truncated signatures: units edtrunc/ */
+    if (ci <= 5) { static const int L[] = { 0, 1, 32, 64, 200, 1500 }; ml = L[ci]; }
+    if (ci >= 26) { /* the library signs: deterministic, must equal libcrypto's bytes */
+        static const int L[] = { 0, 1, 100, 1000 }; ml = L[ci - 26];
+        unsigned char *mb = hb(msg, ml), *out = NULL; psSize_t ol = 0;
+        int rc = psSign(NULL, &K.mk, OID_ED25519_KEY_ALG, mb, ml, &out, &ol, NULL);
+        ossl_ed_sign(&K, msg, ml, s2);
+        rec("ed25519-sign", "ed25519", vn, NULL);
+        if (rc < 0 || !out) viol("ed25519-sign", "spurious-failure", "psSign rc=%d msglen %zu", rc, ml);
+        else if (ol != 64 || memcmp(out, s2, 64)) viol("ed25519-sign", "signature-not-standard", "psSign output differs from the RFC 8032 signature: priv=%s msglen %zu got=%s want=%s", hx(K.priv, 32), ml, hx(out, ol), hx(s2, 64));
+        if (out) psFree(out, NULL);
+        free(mb); edk_free(&K); return;
+    }
+    ossl_ed_sign(&K, msg, ml, sig);
+    const unsigned char *pub = K.pub; const char *cls = "accepts-forged";
+    unsigned char pb[32]; memcpy(pb, K.pub, 32);
+    switch (ci) {
+    case 6: add_L(sig + 32, 1); cls = "accepts-noncanonical-s"; break;
+    case 7: add_L(sig + 32, 8); cls = "accepts-noncanonical-s"; break;
+    case 8: memset(sig + 32, 0, 32); break;
+    case 9: memcpy(sig + 32, ED_L, 32); cls = "accepts-noncanonical-s"; break;
+    case 10: memset(sig, 0, 32); break;
+    case 11: memset(sig, 0, 32); sig[0] = 1; break;
+    case 12: vf_fill(&R, sig, 32); break;
+    case 13: memcpy(s2, sig, 32); memcpy(sig, sig + 32, 32); memcpy(sig + 32, s2, 32); break;
+    case 14: if (ml == 0) ml = 1; msg[vf_below(&R, ml)] ^= (unsigned char) (1 << vf_below(&R, 8)); cls = "accepts-wrong-message"; break;
+    case 15: ml -= 1; cls = "accepts-wrong-message"; break;
+    case 16: ml += 1; cls = "accepts-wrong-message"; break;
+    case 17: pb[vf_below(&R, 32)] ^= (unsigned char) (1 << vf_below(&R, 8)); pub = pb; cls = "accepts-wrong-key"; break;
+    case 18: { unsigned char p2[32]; vf_fill(&R, p2, 32); edk_from_priv(&K2, p2); memcpy(pb, K2.pub, 32); edk_free(&K2); pub = pb; cls = "accepts-wrong-key"; break; }
+    case 19: memset(pb, 0, 32); pub = pb; cls = "accepts-wrong-key"; break;
+    case 20: sl = 63; cls = "accepts-wrong-length-signature"; break;
+    case 21: sl = 32; cls = "accepts-wrong-length-signature"; break;
+    case 22: sl = 1; cls = "accepts-wrong-length-signature"; break;
+    case 23: sl = 0; cls = "accepts-wrong-length-signature"; break;
+    case 24: sl = 65; sig[64] = 0; cls = "accepts-wrong-length-signature"; break;
+    case 25: sl = 128; memcpy(sig + 64, sig, 64); cls = "accepts-wrong-length-signature"; break;
+    }
+    judge_ed(pub, msg, ml, sig, sl, vn, NULL, cls);
+    edk_free(&K);
+}
+/* RFC 8032 section 7.1 test vectors (TEST 1, 2, 3, SHA(abc)) */
+static void case_ed_vectors(unit_t *u, int ci)
+{
+    static const char *sk[] = { "9d61b19deffd5a60ba844af492ec2cc44449c5697b326919703bac031cae7f60", "4ccd089b28ff96da9db6c346ec114e0f5b8a319f35aba624da8cf6ed4fb8a6fb",
+                                "c5aa8df43f9f837bedb7442f31dcb7b166d38535076f094b85ce3a2e0b4458f7", "833fe62409237b9d62ec77587520911e9a759cec1d19755b7da901b96dca3d42" };
+    static const char *pk[] = { "d75a980182b10ab7d54bfed3c964073a0ee172f3daa62325af021a68f707511a", "3d4017c3e843895a92b70aa74d1b7ebc9c982ccf2ec4968cc0cd55f12af4660c",
+                                "fc51cd8e6218a1a38da47ed00230f0580816ed13ba3303ac5deb911548908025", "ec172b93ad5e563bf4932c70e1245034c35467ef2efd4d64ebf819683467e2bf" };
+    static const char *ms[] = { "", "72", "af82", "ddaf35a193617abacc417349ae20413112e6fa4e89a97ea20a9eeee64b55d39a2192992a274fc1a836ba3c23a3feebbd454d4423643ce80e2a9ac94fa54ca49f" };
+    static const char *sg[] = { "e5564300c360ac729086e2cc806e828a84877f1eb8e5d974d873e065224901555fb8821590a33bacc61e39701cf9b46bd25bf5f0595bbe24655141438e7a100b",
+                                "92a009a9f0d4cab8720e820b5f642540a2b27b5416503f8fb3762223ebdb69da085ac1e43e15996e458f3613d0f11d8c387b2eaeb4302aeeb00d291612bb0c00",
+                                "6291d657deec24024827e69c3abe01a30ce548a284743a445e3680d7db5ac3ac18ff9b538d16f290ae67f760984dc6594a7c15e9716ed28dc027beceea1ec40a",
+                                "dc2a4459e7369633a52b1bf277839a00201009a3efbf3ecb69bea2186c26b58909351fc9ac90b3ecfdfbc7c66431e0303dca179c138ac17ad9bef1177331a704" };
+    unsigned char s[32], p[32], m[64], g[64]; (void) u;
+    vf_unhex(s, sk[ci]); vf_unhex(p, pk[ci]); int ml = vf_unhex(m, ms[ci]); vf_unhex(g, sg[ci]);
+    edk_t K; edk_from_priv(&K, s);
+    rec("ed25519-verify", "ed25519", "rfc8032-vector", sk[ci] + 60);
+    if (memcmp(K.pub, p, 32)) vf_incon("libcrypto derives a different public key for RFC 8032 vector %d", ci);
+    int rc = 0;
+    if (!ms_ed_verify(p, m, ml, g, 64, &rc)) viol("ed25519-verify", "rejects-valid", "RFC 8032 test vector %d rejected rc=%d", ci + 1, rc);
+    unsigned char *mb = hb(m, ml), *out = NULL; psSize_t ol = 0;
+    rc = psSign(NULL, &K.mk, OID_ED25519_KEY_ALG, mb, ml, &out, &ol, NULL);
+    rec("ed25519-sign", "ed25519", "rfc8032-vector", sk[ci] + 60);
+    if (rc < 0 || ol != 64 || memcmp(out, g, 64)) viol("ed25519-sign", "signature-not-standard", "RFC 8032 test vector %d: psSign rc=%d output %s", ci + 1, rc, out ? hx(out, ol) : "-");
+    if (out) psFree(out, NULL);
+    free(mb); edk_free(&K);
+}
+/* truncated Ed25519 signatures each get a unit of their own (an over-read aborts the process) */
+static void case_ed_trunc(unit_t *u, int ci)
+{
+    static const int L[] = { 63, 32, 1, 0 };
+    edk_t K; ed_unit_key(u, &K);
+    unsigned char msg[64], sig[64]; size_t ml = 1 + vf_below(&R, 60);
+    (void) ci;
+    vf_fill(&R, msg, sizeof msg);
+    ossl_ed_sign(&K, msg, ml, sig);
+    char pos[16]; snprintf(pos, sizeof pos, "len%d", L[u->b]);
+    judge_ed(K.pub, msg, ml, sig, L[u->b], "sig-truncated", pos, "accepts-wrong-length-signature");
+    edk_free(&K);
+}
+
+/* ================================================================== main === */
+static const int RSA_BITS[] = { 1024, 2048, 3072, 4096 };
+static const unsigned long RSA_E[] = { 3, 17, 65537 };
+static void build_units(void)
+{
+    int T = vf_thorough;
+    /* ---- RSA ---- */
+    for (int bi = 0; bi < 4; bi++) {
+        int bits = RSA_BITS[bi];
+        int gens = T ? (bits <= 2048 ? 3 : bits == 3072 ? 2 : 1) : 1;
+        int vr = T ? (bits == 1024 ? 24 : bits == 2048 ? 12 : bits == 3072 ? 4 : 2) : 1;   /* rounds of the variant table */
+        int br = T ? (bits == 1024 ? 6 : bits == 2048 ? 3 : 1) : 1;                          /* rounds of the byte sweep */
+        for (int gen = 0; gen < gens; gen++) for (int ei = 0; ei < 3; ei++) {
+            rsak_t *K = rsa_slot(bits, RSA_E[ei], gen, NULL), *K2 = rsa_slot(bits, RSA_E[(ei + 1) % 3], gen, NULL);
+            int idx = bi * 3 + ei + gen;
+            for (int round = 0; round < vr; round++) {
+                for (int h = 0; h < NHALG; h++) { unit_t *u = add_unit("rsa-pkcs1-verify", case_v15, NV15, "v15/%s/%s/r%d", K->label, HALG[h].name, round); u->rk = K; u->rk2 = K2; u->a = h; u->round = round; }
+                for (int h = H_SHA1; h <= H_SHA512; h++) { unit_t *u = add_unit("rsa-pss-verify", case_pss, NPSSV, "pss/%s/%s/r%d", K->label, HALG[h].name, round); u->rk = K; u->rk2 = K2; u->a = h; u->round = round; }
+            }
+            for (int round = 0; round < br; round++) {
+                int nh = T ? NHALG : (bits <= 2048 ? 2 : 1);
+                for (int hh = 0; hh < nh; hh++) {
+                    int h = (idx + hh * 3 + round) % NHALG;
+                    for (int c = 0; c * 128 < bits / 8; c++) { unit_t *u = add_unit("rsa-pkcs1-verify", case_v15_byte, 128, "v15b/%s/%s/c%d/r%d", K->label, HALG[h].name, c, round); u->rk = K; u->a = h; u->b = c; u->round = round; }
+                }
+                if (ei == 2 || T) {
+                    int h = H_SHA1 + (idx + round) % 4;
+                    for (int c = 0; c * 128 < bits / 8; c++) { unit_t *u = add_unit("rsa-pss-verify", case_pss_byte, 128, "pssb/%s/%s/c%d/r%d", K->label, HALG[h].name, c, round); u->rk = K; u->a = h; u->b = c; u->round = round; }
+                }
+            }
+            int er = T ? (bits <= 2048 ? 6 : 2) : 1;
+            for (int round = 0; round < er; round++) {
+                unit_t *u = add_unit("rsa-decrypt", case_rsaenc, NENCV, "rsaenc/%s/r%d", K->label, round); u->rk = K; u->round = round;
+                u = add_unit("rsa-pkcs1-sign", case_rsasign, NSIGNV, "rsasign/%s/r%d", K->label, round); u->rk = K; u->round = round;
+            }
+        }
+    }
+    /* the repository's sample keys (moduli other than 1024/1536/2048/3072/4096 bits are documented as unsupported by pstm_exptmod) */
+    {
+        rsak_t *X[5]; int nx = 0;
+        X[nx++] = rsa_slot(1024, 0, 0, "RSA/1024_RSA_KEY.pem"); X[nx++] = rsa_slot(2048, 0, 0, "RSA/2048_RSA_KEY.pem"); X[nx++] = rsa_slot(4096, 0, 0, "RSA/4096_RSA_KEY.pem");
+        for (int i = 0; i < nx; i++) {
+            rsak_t *K = X[i];
+            static const int hs[] = { H_SHA256, H_RAW, H_SHA384 };
+            for (int j = 0; j < 3; j++) { unit_t *u = add_unit("rsa-pkcs1-verify", case_v15, NV15, "v15/%s/%s/r0", K->label, HALG[hs[j]].name); u->rk = K; u->a = hs[j]; }
+            for (int h = H_SHA256; h <= H_SHA384; h++) { unit_t *u = add_unit("rsa-pss-verify", case_pss, NPSSV, "pss/%s/%s/r0", K->label, HALG[h].name); u->rk = K; u->a = h; }
+            unit_t *u = add_unit("rsa-decrypt", case_rsaenc, NENCV, "rsaenc/%s/r0", K->label); u->rk = K;
+            u = add_unit("rsa-pkcs1-sign", case_rsasign, NSIGNV, "rsasign/%s/r0", K->label); u->rk = K;
+        }
+    }
+    /* ---- ECC ---- */
+    for (int c = 0; c < NCURVES; c++) {
+        int sz = CURVES[c].size;
+        int er = T ? 40 : 2, ir = T ? 60 : 2, sr = T ? 12 : 1, dr = T ? 6 : 1;
+        for (int round = 0; round < er; round++) {
+            for (int h = 0; h < 5; h++) { unit_t *u = add_unit("ecdsa-verify", case_ecdsa, NECV, "ecdsa/%s/h%d/r%d", CURVES[c].name, HLENS[h], round); u->a = c; u->b = h; u->round = round; }
+            unit_t *u = add_unit("ecdsa-verify", case_ecdsa_sweep, 150 + 2 * sz, "ecdsas/%s/r%d", CURVES[c].name, round); u->a = c; u->round = round;
+        }
+        { unit_t *u = add_unit("ecdsa-verify", case_ecdsa, NECV, "ecdsa/%s/h32/tk", CURVES[c].name); u->a = c; u->b = 2; u->c = 1; u->round = 9999;
+          u = add_unit("ecdsa-sign", case_ecsign, 16, "ecsign/%s/tk", CURVES[c].name); u->a = c; u->c = 1; u->round = 9999; }
+        for (int round = 0; round < sr; round++) { unit_t *u = add_unit("ecdsa-sign", case_ecsign, 16, "ecsign/%s/r%d", CURVES[c].name, round); u->a = c; u->round = round; }
+        for (int round = 0; round < ir; round++) {
+            unit_t *u = add_unit("ecc-import", case_import, NIMPV, "eccimp/%s/r%d", CURVES[c].name, round); u->a = c; u->round = round;
+            for (int k = 0; k * 256 < 2 * sz * 8; k++) { u = add_unit("ecc-import", case_import_bits, 256, "eccbits/%s/c%d/r%d", CURVES[c].name, k, round); u->a = c; u->b = k; u->round = round; }
+        }
+        for (int round = 0; round < dr; round++) { unit_t *u = add_unit("ecdh", case_ecdh, 12, "ecdh/%s/r%d", CURVES[c].name, round); u->a = c; u->round = round; }
+    }
+    /* ---- DH, X25519, Ed25519 ---- */
+    for (int g = 0; g < NDHG; g++) for (int round = 0; round < (T ? 4 : 1); round++) { unit_t *u = add_unit("dh", case_dh, NDHV, "dh/%s/r%d", DHG[g].name, round); u->a = g; u->round = round; }
+    for (int k = 0; k < (T ? 400 : 4); k++) add_unit("x25519", case_x25519, k == 0 ? 128 : 128, "x25519/c%d", k);
+    for (int k = 0; k < (T ? 300 : 6); k++) { unit_t *u = add_unit("ed25519-verify", case_ed, NEDV + ED_SWEEP, "ed/k%d", k); u->a = k; }
+    for (int b = 0; b < 4; b++) { unit_t *u = add_unit("ed25519-verify", case_ed_trunc, 1, "edtrunc/l%d", b); u->a = 0; u->b = b; }
+    add_unit("ed25519-verify", case_ed_vectors, 4, "edvec");
+}
+
+int main(int argc, char **argv)
+{
+    vf_init(argc, argv);
+    g_testkeys = vf_arg("--testkeys", g_testkeys);
+    const char *only_scheme = vf_arg("--scheme", NULL);
+    char want_unit[120] = "";
+    if (vf_case) {
+        /* s<seed>/<unit id>#<case index> */
+        const char *p = vf_case;
+        if (*p == 's') { vf_seed = strtoull(p + 1, (char **) &p, 10); if (*p == '/') p++; }
+        snprintf(want_unit, sizeof want_unit, "%s", p);
+        char *h = strchr(want_unit, '#');
+        if (h) { *h = 0; if (h[1]) only_ci = atoi(h + 1); }
+        g_verbose_case = 1;
+    }
+    if (psCryptoOpen(PSCRYPTO_CONFIG) < 0) { vf_incon("psCryptoOpen failed"); vf_flush(); return 2; }
+    RAND_set_rand_method(&drb_meth);
+    seed_all("init", 0);
+    bnctx = BN_CTX_new();
+    build_units();
+    long ran = 0;
+    for (int i = 0; i < nunits; i++) {
+        unit_t *u = &units[i];
+        if (vf_case) { if (strcmp(u->id, want_unit)) continue; }
+        else { if (!vf_mine(i)) continue; if (only_scheme && strcmp(only_scheme, u->scheme)) continue; }
+        /* RSA keys are generated once in the parent and inherited by the forked units */
+        if (u->rk && !rsa_ready(u->rk)) continue;
+        if (u->rk2 && !rsa_ready(u->rk2)) continue;
+        char spec[200]; snprintf(spec, sizeof spec, "s%llu/%s#", (unsigned long long) vf_seed, u->id);
+        vf_fork_case(run_unit, u, u->scheme, spec, vf_thorough ? 3000 : 600);
+        ran++;
+    }
+    if (vf_case && !ran) vf_incon("replay spec names no unit: %s", vf_case);
+    vf_stat("units", ran);
+    vf_flush();
+    fflush(NULL);
+    _exit(0); /* the parent only holds key material; leak checking is not this check's business */
+}
